@@ -325,7 +325,7 @@ func init() {
 					okPow = true
 					for _, cs := range w.callersOf(fs.Fn) {
 						a := w.expr(cs.Common().Args[pi])
-						if !regexp.MustCompile(`\.GetByIndex\(`+idx+`\)#1\.VotingPower$`).MatchString(a) {
+						if !regexp.MustCompile(`\.GetByIndex\(` + idx + `\)#1\.VotingPower$`).MatchString(a) {
 							okPow = false
 							s += " with caller argument " + a
 						}
